@@ -197,11 +197,17 @@ Fixpoint named_captures (fuel : nat) (l : list ascii) : list string :=
 Definition interpolated_args (d : dir) : list string :=
   let n := d_name d in
   if mem_str n ["proxy_pass"; "grpc_pass"; "return"; "add_header"; "proxy_ssl_name"; "grpc_ssl_name"; "js_content";
-                "otel_span_name"; "pass"] then d_args d
+                "otel_span_name"; "otel_trace"; "pass"] then d_args d
+  else if seqb n "log_format" then tl (d_args d)
   else if mem_str n ["proxy_set_header"; "grpc_set_header"; "set"; "otel_span_attr"] then
          match d_args d with _ :: v :: _ => [v] | _ => [] end
   else if seqb n "rewrite" then match d_args d with _ :: r :: _ => [r] | _ => [] end
-  else if seqb n "map" || seqb n "split_clients" then match d_args d with s :: _ => [s] | _ => [] end
+  else if seqb n "map" then
+         (* the source string and the values of the entries (keys may be regular expressions) *)
+         match d_args d with s :: _ => [s] | _ => [] end ++
+         flat_map (fun en => match d_args en with [v] => [v] | _ => [] end)
+                  (match d_block d with Some b => b | None => [] end)
+  else if seqb n "split_clients" then match d_args d with s :: _ => [s] | _ => [] end
   else if seqb n "if" then d_args d
   else [].
 
@@ -336,7 +342,7 @@ Definition ref_errors (e : env) (d : dir) : list string :=
      | _ => []
      end
    else []) ++
-  (if seqb n "split_clients" then
+  (if seqb n "split_clients" && has_prefix "$group_" (nth 1 (d_args d) "") then
      flat_map (fun en => let v := first_arg en in
                          if mem_str v (e_upstreams e) || has_prefix "unix:" v then [] else ["split_clients value is not an upstream: " ^^ v])
               (block_of d)
